@@ -5,7 +5,7 @@ import tpbase
 
 ID = "C20"
 PROPS = "C20"
-PER_SHARD = 2
+PER_SHARD = 12
 RULE = ("fresh servers (Unix and TCP): clients connect and send requests, the application receives and HOLDS some of them, the "
         "server is dropped at varying points (no client, idle clients, held requests, right after an accept), then a new client "
         "tries to connect (a refusal must come within 1 s), the UNIX socket path is checked, and the held requests are answered "
@@ -27,6 +27,13 @@ def gen(tier, rng):
             yield "sd %s c1,r,a,c2,r,d,p,x3,a" % kind, {"scenario": "answered-then-held"}
             yield "sd %s c1,r,c2,r,d,a,x5,p" % kind, {"scenario": "answer-before-probe"}
             yield "sd %s c1,r,d,w300,a,x7" % kind, {"scenario": "answer-late"}
+    # the real pool under the controllable runtime: bursts, release, the idle period in VIRTUAL time, later
+    # dispatches, dropping the pool; lock-step replay through the model
+    ns = 40 if tier == "quick" else 600
+    # (`q` after `rel`: every worker has gone idle before virtual time passes, whatever the schedule)
+    for sc in ("q,d8,o,rel,o,s5200,o,d2,o", "q,d6,o,rel,q,s5200,o,drop", "q,d12,o,rel,q,s2000,d3,o,rel,q,s5200,o", "q,d5,o,drop", "d2,q,rel,q,s5200,o,s5200,o,d1,o"):
+        for sd in range(ns):
+            yield "tps %d %s" % (sd * 11 + len(sc), sc), {"scenario": "scheduled " + sc}
     # idle workers are reclaimed (the pool part)
     yield "tp z20,d8,o,rel,o,idle6200,o,d2,o", {"scenario": "idle-reclaim-8"}
     if tier != "quick":
@@ -34,7 +41,31 @@ def gen(tier, rng):
         yield "tp z20,d3,o,rel,o,idle6200,o", {"scenario": "idle-reclaim-3"}
 
 
+def oracle_tps(case, obs):
+    o = tpbase.tps_obs(obs)
+    if o is None:
+        return "FAIL implementation: " + obs[:200]
+    ops = case.split(" ")[2].split(",")
+    k = 0
+    slept = False
+    for op in ops:
+        if op.startswith("s") and op[1:].isdigit() and int(op[1:]) >= 5000:
+            slept = True
+        elif op == "o" and k < len(o["obs"]):
+            todo, waiting, active = o["obs"][k]
+            k += 1
+            if slept and waiting > 4:
+                return "FAIL %d pool threads are still idle after the idle period (minimum is 4; %d threads alive)" % (waiting, active)
+            if todo != 0:
+                return "FAIL %d task(s) queued at quiescence" % todo
+    if o["dead"] and "drop" in ops:
+        return "FAIL threads are blocked for ever after the pool was dropped"
+    return "OK"
+
+
 def oracle(case, obs):
+    if case.startswith("tps "):
+        return oracle_tps(case, obs)
     f = case.split(" ")
     if f[0] == "sd":
         if "failed" in obs or "r=none" in obs:
